@@ -4,6 +4,7 @@
 import Driver.Gateway
 import Bisquitt.Model.Client
 import Bisquitt.Spec.Gateway
+import Bisquitt.Spec.Client
 
 namespace Driver
 open Bisquitt Bisquitt.Cl
@@ -12,7 +13,7 @@ def clErrStr : Err → String
   | .ok => "ok" | .timeout => "timeout" | .noMoreRetries => "no-more-retries" | .connectTimeout => "connect-timeout"
   | .rejected => "rejected" | .notRegistered => "not-registered" | .badState => "bad-state" | .invalidQos => "invalid-qos"
   | .pingrespTimeout => "pingresp-timeout" | .closed => "closed" | .badTopicId => "bad-topic-id"
-  | .unhandledPacket => "unhandled-packet" | .badQos => "bad-qos" | .decode => "decode" | .keepaliveStopped => "keepalive-stopped"
+  | .unhandledPacket => "unhandled-packet" | .badQos => "bad-qos" | .decode => "decode" | .keepaliveStopped => "keepalive-stopped" | .terminated => "terminated"
 
 def cstateStr : Cl.CState → String
   | .disconnected => "disconnected" | .active => "active" | .asleep => "asleep" | .awake => "awake"
@@ -168,7 +169,40 @@ def clientCase (hdr : String) (lines : List String) : List String :=
         if ti == tm && ni == nm && !fs.contains f then
           some s!"DIFF client handler case={caseId} t={ti} impl-filter={f} model-admissible={fs}"
         else none
-      d1 ++ d2 ++ d3
+      -- monitors over the implementation's own trace
+      let tr : List Spec.ClientSpec.CE := lines.filterMap fun l =>
+        if l.startsWith "@" then
+          (parseClientEvent l).bind fun (t, e) => match e with
+            | .api call a => some (Spec.ClientSpec.CE.api t call a)
+            | .sn b => some (Spec.ClientSpec.CE.snIn t b)
+            | .tick => none
+        else match splitOut l with
+          | some (t, txt) =>
+            (match words txt with
+             | ["sn", hx] => (parseHex hx).map fun b => Spec.ClientSpec.CE.out t (.sn b)
+             | ["ret", call, cls] =>
+               (([Err.ok, .timeout, .noMoreRetries, .connectTimeout, .rejected, .notRegistered, .badState, .invalidQos,
+                  .pingrespTimeout, .closed, .badTopicId, .unhandledPacket, .badQos, .decode, .keepaliveStopped, .terminated].find?
+                  fun e => clErrStr e == cls).map fun e => Spec.ClientSpec.CE.out t (.ret call e)).orElse
+                  fun _ => some (Spec.ClientSpec.CE.out t (.ret call .closed))
+             | ["state", st] =>
+               ([Cl.CState.disconnected, .active, .asleep, .awake].find? fun x => cstateStr x == st).map
+                 fun x => Spec.ClientSpec.CE.out t (.state x)
+             | "done" :: _ => some (Spec.ClientSpec.CE.out t (.done .ok))
+             | "handler" :: f :: tp :: _ =>
+               (match parseHex (f.drop 7).toString, parseHex (tp.drop 6).toString with
+                | some fb, some tb => some (Spec.ClientSpec.CE.handlerRan t fb tb)
+                | _, _ => none)
+             | w :: _ => if w == "leak" || w == "panic" then some (Spec.ClientSpec.CE.note t txt) else none
+             | [] => none)
+          | none => none
+      let tEnd := (evs.getLast?.map (·.1)).getD 0
+      let mon := fun (p : String) (vs : List Spec.Viol) => vs.map fun v => s!"MON {p} {v.sig} case={caseId} {v.detail}"
+      let ms := mon "C17" (Spec.ClientSpec.c17 cfg tr) ++ mon "C23" (Spec.ClientSpec.c23 tr) ++
+        mon "C31" (Spec.ClientSpec.c31 cfg tr) ++ mon "C28" (Spec.ClientSpec.c28 cfg tr tEnd) ++
+        mon "C25" (Spec.ClientSpec.c25 tr) ++ mon "C27" (Spec.ClientSpec.c27 cfg tr) ++
+        mon "C33" (Spec.ClientSpec.c33 cfg tr tEnd) ++ mon "C06" (Spec.ClientSpec.c06 tr)
+      d1 ++ d2 ++ d3 ++ ms
     | none, _ => [s!"BADLINE unparsable event in case {caseId}"]
     | _, none => [s!"BADLINE unparsable output in case {caseId}"]
 
